@@ -298,7 +298,7 @@ def loader_payload(prog, rep):
         elif ps:
             rep.ok("C01.loader-payload", f"{ctx}.{fname}: _bloom assigned from {label} on {len(ps)} path(s)")
         else:
-            raise AnalysisError(f"no normal path through {ctx}.{fname}")
+            rep.bad("C01.loader-payload", f"{ctx}.{fname}", "loader cannot succeed", f"no path through {ctx}.{fname} returns normally: an exported filter can never be loaded back", f.where())
 
 
 def check(prog, rep, tier):
